@@ -28,7 +28,7 @@ def by_value_types(t):
             yield from by_value_types(e)
 
 
-def holds_no_user_value(t):
+def holds_no_user_value(t, F=None, _depth=0):
     """True when a value of type t owns nothing whose destructor matters to a user: by value it contains only foreign
     containers of references / raw pointers / primitives (e.g. the cached `Vec<&dyn RawLock>`).  Forgetting such a value
     can leak a buffer, never a user value."""
@@ -41,6 +41,23 @@ def holds_no_user_value(t):
         if k == "adt" and not x.get("local") and x["path"] in ("std::vec::Vec", "std::boxed::Box", "std::mem::ManuallyDrop",
                                                               "std::alloc::Global", "std::option::Option"):
             continue
+        if k == "adt" and x["path"].endswith("PhantomData"):
+            continue
+        if k == "param" and x is not t:
+            # a type argument of an enclosing ADT: what matters is what the ADT's fields hold by value (checked below)
+            continue
+        if k == "adt" and x.get("local") and F is not None and _depth < 4 and x["path"] in F.adts:
+            # a crate-local struct (a hold such as `MutexRef<'a, T, R>`): judged by the types of its fields
+            from facts import ty_subst
+            a = F.adts[x["path"]]
+            ok = True
+            for v in a["variants"]:
+                for fld in v["fields"]:
+                    ft = ty_subst(fld["ty"], a["generics"], x.get("args", []))
+                    if ft.get("k") == "param" or not holds_no_user_value(ft, F, _depth + 1):
+                        ok = False
+            if ok:
+                continue
         return False
     return True
 
@@ -155,6 +172,11 @@ class Roles:
             for i, t in enumerate(f["inputs"]):
                 if t["k"] == "adt" and t["path"] in self.key_carriers and out["k"] == "adt" and out["path"] == KEY:
                     roles.add("RELEASE-API")
+        if not roles and not keys and f.get("reachable") and self.mentions_carrier(out) and \
+                any(t["k"] == "adt" and t["path"] in self.key_carriers for t in f["inputs"]):
+            # consumes a key carrier (the key is inside it) and returns one: holds the key for the whole call, like an
+            # acquiring function (`unlocked(guard, f) -> guard`, `PoisonError<Guard>::into_inner`)
+            roles.add("REACQ")
         if not roles:
             roles.add("NON-ACQ")
         return roles
